@@ -516,7 +516,7 @@ def gen_site(rng, depth, hc, used_prefix=None):
     for _ in range(npages):
         rt = gen_route(rng)
         # the url of a page must be in the class of every enclosing mount parameter (any byte but newline)
-        key = rng.choice([b'a', b'b', b'page', b'p', b'k1', b'', b'x.y', b'A', b'q', b'r'])
+        key = rng.choice([b'a', b'b', b'page', b'p', b'k1', b'', b'', b'x.y', b'A', b'q', b'r'])
         if (key, nparams(rt)) in seen:
             continue
         seen.add((key, nparams(rt)))
@@ -550,8 +550,13 @@ def site_nodes(s, path=(), names=(), prefix=b''):
 
 
 def rel_key(rng, frm, to, page_key):
-    """key that names page_key of the node with mapper-name path `to`, used at the node with path `frm`"""
+    """key that names page_key of the node with mapper-name path `to`, used at the node with path `frm`.  The default
+    page (empty key) of another node is also addressed by the bare path of that node (final component = a mount name
+    or `..`), without the trailing slash."""
+    bare = page_key == b'' and rng.random() < 0.5
     if rng.random() < 0.4:
+        if bare and to:
+            return b'/' + b'/'.join(to)
         return b'/' + b'/'.join(to + (page_key,))
     i = 0
     while i < len(frm) and i < len(to) and frm[i] == to[i]:
@@ -559,6 +564,8 @@ def rel_key(rng, frm, to, page_key):
     comps = (b'..',) * (len(frm) - i) + to[i:]
     if rng.random() < 0.2:
         comps = (b'.',) + comps
+    if bare and comps:
+        return b'/'.join(comps)
     return b'/'.join(comps + (page_key,))
 
 
@@ -739,12 +746,12 @@ def exhaustive_cases():
 def gen_abstract(ctx):
     rng = ctx.rng
     cases = exhaustive_cases()
-    nt = ctx.scale(1800, 30000)
+    nt = ctx.scale(1800, 20000)
     for i in range(nt):
         cases.append(tree_case(rng, rng.choice([1, 1, 2, 2, 3, 4])))
-    for i in range(ctx.scale(1300, 20000)):
+    for i in range(ctx.scale(1300, 12000)):
         cases.append(site_case(rng, rng.choice([1, 2, 2, 3, 3, 4])))
-    for i in range(ctx.scale(900, 15000)):
+    for i in range(ctx.scale(900, 8000)):
         cases.append(pool_case(rng))
     return cases
 
@@ -1087,8 +1094,13 @@ def nontrivial(case, out):
     return ' F ' in (' ' + out + ' ') or 'U ' in out or '+ ' in out
 
 
+_site_re = re.compile(r' x \S+ \S+ \d+:')
+
+
 def classify(case, out):
     k = case[0]
+    if k == 'T' and _site_re.search(case):
+        k = 'S'
     if out in ('CONSTRUCT-ERROR',):
         return k + ':construct-error'
     depth = 0
@@ -1100,8 +1112,12 @@ def classify(case, out):
         elif tok == ')':
             d -= 1
     res = out.split(' | ')
+    if k == 'G':
+        m = sum(1 for r in res if r != '-')
+        f = sum(1 for r in res if ' F ' in ' ' + r + ' ')
+        return 'G:pools%s:%s:%s' % (case.split()[1][1:], 'matched>=half' if 2 * m >= len(res) else 'some-matched' if m else 'none-matched',
+                                    'handler-fired' if f else 'no-handler')
     f = sum(1 for r in res if ' F ' in ' ' + r + ' ')
-    n = sum(1 for r in res if r.endswith('N') or r == '-')
     return '%s:depth%d:%s' % (k, depth, 'fired>=half' if 2 * f >= len(res) else 'some-fired' if f else 'none-fired')
 
 
